@@ -11,8 +11,10 @@
 //!               byte-compared with the committed one
 //!  e2e          the generated clients of the h_router fixture called through real Routes carrying
 //!               the generated servers: which handler runs
+//!  gen.protos.* the same through compile_protos (protoc / skip_protoc_run) and tonic_build::compile_protos
 //! Model: Model/Codegen.v.  Oracle (model independent): client path == server arm literal, shapes
-//! equal in all five places they are written, message types equal, NAME == path prefix.
+//! equal in all places they are written, message types equal, NAME == path prefix (cross_check);
+//! path / shape / name as the service definition says (spec_check).
 mod extract;
 use extract::*;
 use serde_json::{json, Value};
@@ -41,6 +43,7 @@ mod bootstrap {
 }
 
 // ------------------------------------------------------------------ descriptors
+/// tonic_build::manual::Method, as given to its builder
 #[derive(Clone, Debug)]
 struct MDesc {
     name: String,  // rust fn name
@@ -49,15 +52,16 @@ struct MDesc {
     ss: bool,
     input: String,
     output: String,
+    codec: String,
 }
+/// tonic_build::manual::Service (identifier() is the name)
 #[derive(Clone, Debug)]
 struct SDesc {
     name: String,
     package: String,
-    ident: String,
     methods: Vec<MDesc>,
 }
-#[derive(Clone, Copy, Debug)]
+#[derive(Clone, Debug)]
 struct Opts {
     emit_package: bool,
     use_arc_self: bool,
@@ -65,41 +69,50 @@ struct Opts {
     build_client: bool,
     build_server: bool,
     build_transport: bool,
+    // prost::Builder only
+    cwkt: bool,
+    proto_path: String,
+}
+impl Opts {
+    fn plain(bc: bool, bs: bool) -> Opts {
+        Opts { emit_package: true, use_arc_self: false, default_stubs: false, build_client: bc, build_server: bs, build_transport: true, cwkt: false, proto_path: "super".into() }
+    }
 }
 fn cs(s: &str) -> String {
     coq_bytes(s.as_bytes())
 }
+fn is_path(t: &str) -> bool {
+    syn::parse_str::<syn::Path>(t).is_ok()
+}
 impl SDesc {
     fn coq(&self) -> String {
         format!(
-            "(mkService {} {} {} {})",
+            "(mkMS {} {} {})",
             cs(&self.name),
             cs(&self.package),
-            cs(&self.ident),
             coq_list(&self.methods, |m| format!(
-                "(mkMethod {} {} {} {} {} {})",
+                "(mkMM {} {} {} {} {} {} {} {} {})",
                 cs(&m.name),
                 cs(&m.route),
+                cs(&m.input),
+                cs(&m.output),
                 coq_bool(m.cs),
                 coq_bool(m.ss),
-                cs(&m.input),
-                cs(&m.output)
+                // syn's verdicts are inputs of the model (external library)
+                coq_bool(is_path(&m.input)),
+                coq_bool(is_path(&m.output)),
+                coq_bool(is_path(&m.codec))
             ))
         )
     }
     fn json(&self) -> Value {
-        json!({"name": self.name, "package": self.package, "ident": self.ident,
-               "methods": self.methods.iter().map(|m| json!({"name": m.name, "route": m.route, "client_streaming": m.cs, "server_streaming": m.ss, "input": m.input, "output": m.output})).collect::<Vec<_>>()})
+        json!({"name": self.name, "package": self.package,
+               "methods": self.methods.iter().map(|m| json!({"name": m.name, "route": m.route, "client_streaming": m.cs, "server_streaming": m.ss, "input": m.input, "output": m.output, "codec_path": m.codec})).collect::<Vec<_>>()})
     }
     fn manual(&self) -> manual::Service {
         let mut b = manual::Service::builder().name(&self.name).package(&self.package);
         for m in &self.methods {
-            let mut mb = manual::Method::builder()
-                .name(&m.name)
-                .route_name(&m.route)
-                .input_type(&m.input)
-                .output_type(&m.output)
-                .codec_path("crate::Codec");
+            let mut mb = manual::Method::builder().name(&m.name).route_name(&m.route).input_type(&m.input).output_type(&m.output).codec_path(&m.codec);
             if m.cs {
                 mb = mb.client_streaming();
             }
@@ -110,66 +123,169 @@ impl SDesc {
         }
         b.build()
     }
+    fn spec(&self) -> Spec {
+        Spec { package: self.package.clone(), ident: self.name.clone(), methods: self.methods.iter().map(|m| (m.route.clone(), m.cs, m.ss)).collect() }
+    }
+    /// every name is a usable Rust identifier and every type a path: inside this class a generator
+    /// panic or unparsable output is a violation; outside it the oracle does not judge the outcome
+    fn well_formed(&self) -> bool {
+        usable_ident(&self.name)
+            && self.methods.iter().all(|m| usable_ident(&m.name) && plain_ident(&m.route) && is_path(&m.input) && is_path(&m.output) && is_path(&m.codec))
+    }
 }
 impl Opts {
-    fn coq(&self) -> String {
+    fn cgb(&self) -> String {
+        format!("(mkCGB {} {} {} {})", coq_bool(self.emit_package), coq_bool(self.cwkt), coq_bool(self.use_arc_self), coq_bool(self.default_stubs))
+    }
+    fn mb(&self) -> String {
+        format!("(mkMB {} {})", coq_bool(self.build_client), coq_bool(self.build_server))
+    }
+    fn pb(&self) -> String {
         format!(
-            "(mkOpts {} {} {} {} {})",
-            coq_bool(self.emit_package),
-            coq_bool(self.use_arc_self),
-            coq_bool(self.default_stubs),
+            "(mkPB {} {} {} {} {} {} {})",
             coq_bool(self.build_client),
-            coq_bool(self.build_server)
+            coq_bool(self.build_server),
+            cs(&self.proto_path),
+            coq_bool(self.emit_package),
+            coq_bool(self.cwkt),
+            coq_bool(self.use_arc_self),
+            coq_bool(self.default_stubs)
         )
     }
     fn json(&self) -> Value {
         json!({"emit_package": self.emit_package, "use_arc_self": self.use_arc_self, "generate_default_stubs": self.default_stubs,
-               "build_client": self.build_client, "build_server": self.build_server, "build_transport": self.build_transport})
+               "build_client": self.build_client, "build_server": self.build_server, "build_transport": self.build_transport,
+               "compile_well_known_types": self.cwkt, "proto_path": self.proto_path})
     }
 }
 
-// ------------------------------------------------------------------ observables and the oracle
-fn client_tr(c: &ClientMod, full: bool) -> Tr {
-    Tr::L(vec![Tr::L(
-        c.fns
-            .iter()
-            .map(|f| {
-                let one = |v: &Vec<String>| if v.len() == 1 { v[0].clone() } else { format!("<{} found>", v.len()) };
-                let gm = if f.grpc_methods.len() == 1 { f.grpc_methods[0].clone() } else { ("<?>".into(), "<?>".into()) };
-                let mut v = vec![Tr::s(&one(&f.paths)), Tr::n(shape_code(&one(&f.calls))), Tr::s(&gm.0), Tr::s(&gm.1)];
-                if full {
-                    v.extend([Tr::s(&f.fn_name), Tr::s(&f.req), Tr::s(&f.resp)]);
-                }
-                Tr::L(v)
-            })
-            .collect(),
-    )])
+// the harness's own judgement of names (independent of the model and of tonic-build)
+const RUST_KEYWORDS: &[&str] = &[
+    "_", "abstract", "as", "async", "await", "become", "box", "break", "const", "continue", "crate", "do", "dyn", "else", "enum", "extern", "false", "final",
+    "fn", "for", "if", "impl", "in", "let", "loop", "macro", "match", "mod", "move", "mut", "override", "priv", "pub", "ref", "return", "Self", "self", "static",
+    "struct", "super", "trait", "true", "try", "type", "typeof", "unsafe", "unsized", "use", "virtual", "where", "while", "yield",
+];
+fn plain_ident(s: &str) -> bool {
+    let mut it = s.chars();
+    match it.next() {
+        Some(c) if c == '_' || c.is_ascii_alphabetic() => it.all(|c| c == '_' || c.is_ascii_alphanumeric()),
+        _ => false,
+    }
 }
-fn server_tr(s: &ServerMod, full: bool) -> Tr {
-    Tr::L(vec![Tr::L(vec![
-        Tr::s(s.service_name.as_deref().unwrap_or("<no SERVICE_NAME>")),
+/// usable as the name of a Rust item: an identifier that is not a keyword, or a legal raw identifier
+fn usable_ident(s: &str) -> bool {
+    match s.strip_prefix("r#") {
+        Some(r) => plain_ident(r) && !["_", "super", "self", "Self", "crate"].contains(&r),
+        None => plain_ident(s) && !RUST_KEYWORDS.contains(&s),
+    }
+}
+
+/// what the service definition says, for the direct check
+#[derive(Clone, Debug)]
+struct Spec {
+    package: String,
+    ident: String,
+    methods: Vec<(String, bool, bool)>, // (proto method name, client_streaming, server_streaming)
+}
+
+// ------------------------------------------------------------------ observables and the oracle
+fn one(v: &[String]) -> String {
+    if v.len() == 1 {
+        v[0].clone()
+    } else {
+        format!("<{} found>", v.len())
+    }
+}
+fn one_bool(v: &[bool]) -> Tr {
+    if v.len() == 1 {
+        Tr::bool(v[0])
+    } else {
+        Tr::n(9u8)
+    }
+}
+fn resp_tr(r: &Resp) -> Tr {
+    match r {
+        Resp::Plain(t) => Tr::L(vec![Tr::n(0u8), Tr::s(t)]),
+        Resp::Assoc(x) => Tr::L(vec![Tr::n(1u8), Tr::s(x)]),
+        Resp::Boxed(t) => Tr::L(vec![Tr::n(2u8), Tr::s(t)]),
+    }
+}
+fn client_tr(c: &ClientMod) -> Tr {
+    Tr::L(vec![
+        Tr::s(&c.mod_name),
+        Tr::s(&one(&c.structs)),
+        Tr::L(
+            c.fns
+                .iter()
+                .map(|f| {
+                    let gm = if f.grpc_methods.len() == 1 { f.grpc_methods[0].clone() } else { ("<?>".into(), "<?>".into()) };
+                    Tr::L(vec![
+                        Tr::s(&f.fn_name),
+                        Tr::bool(f.req_streaming),
+                        Tr::s(&f.req),
+                        Tr::bool(f.resp_streaming),
+                        Tr::s(&f.resp),
+                        Tr::s(&one(&f.paths)),
+                        Tr::s(&gm.0),
+                        Tr::s(&gm.1),
+                        Tr::n(shape_code(&one(&f.calls))),
+                    ])
+                })
+                .collect(),
+        ),
+    ])
+}
+fn server_tr(s: &ServerMod) -> Tr {
+    Tr::L(vec![
+        Tr::s(&s.mod_name),
+        Tr::s(&one(&s.traits)),
+        Tr::s(&one(&s.structs)),
+        Tr::L(
+            s.trait_fns
+                .iter()
+                .map(|t| {
+                    Tr::L(vec![
+                        Tr::opt(t.assoc.as_ref().map(|(x, item)| Tr::L(vec![Tr::s(x), Tr::s(item)]))),
+                        Tr::s(&t.name),
+                        match t.arc_self {
+                            Some(b) => Tr::bool(b),
+                            None => Tr::n(9u8),
+                        },
+                        Tr::bool(t.req_streaming),
+                        Tr::s(&t.req),
+                        resp_tr(&t.resp_ty),
+                        Tr::bool(t.default_body),
+                    ])
+                })
+                .collect(),
+        ),
         Tr::L(
             s.arms
                 .iter()
                 .map(|a| {
-                    let one = |v: &Vec<String>| if v.len() == 1 { v[0].clone() } else { format!("<{} found>", v.len()) };
-                    let mut v = vec![Tr::s(&a.literal), Tr::n(shape_code(&one(&a.grpc_calls)))];
-                    if full {
-                        v.extend([Tr::s(&one(&a.fn_names)), Tr::s(&a.req), Tr::s(&a.resp)]);
-                    }
-                    Tr::L(v)
+                    Tr::L(vec![
+                        Tr::s(&a.literal),
+                        Tr::n(shape_code(&one(&a.kinds))),
+                        Tr::s(&a.req),
+                        Tr::s(&a.resp),
+                        Tr::opt(a.response_stream.as_ref().map(resp_tr)),
+                        one_bool(&a.call_req_streaming),
+                        Tr::s(&one(&a.traits)),
+                        Tr::s(&one(&a.fn_names)),
+                        one_bool(&a.inner_by_value),
+                        Tr::n(shape_code(&one(&a.grpc_calls))),
+                    ])
                 })
                 .collect(),
         ),
-    ])])
-}
-fn gen_tr(c: Option<&ClientMod>, s: Option<&ServerMod>, full: bool) -> Tr {
-    Tr::L(vec![
-        c.map(|c| client_tr(c, full)).unwrap_or(Tr::L(vec![])),
-        s.map(|s| server_tr(s, full)).unwrap_or(Tr::L(vec![])),
+        Tr::s(s.service_name.as_deref().unwrap_or("<no SERVICE_NAME>")),
+        Tr::s(s.named_value.as_deref().unwrap_or("<NAME is not a string>")),
     ])
 }
-/// the property, read off the generated code alone
+fn gen_tr(c: Option<&ClientMod>, s: Option<&ServerMod>) -> Tr {
+    Tr::L(vec![Tr::opt(c.map(client_tr)), Tr::opt(s.map(server_tr))])
+}
+/// the property, read off the generated code alone: client against server
 fn cross_check(c: Option<&ClientMod>, s: Option<&ServerMod>, unique_routes: bool) -> Option<String> {
     if let Some(c) = c {
         for f in &c.fns {
@@ -187,8 +303,9 @@ fn cross_check(c: Option<&ClientMod>, s: Option<&ServerMod>, unique_routes: bool
     }
     if let Some(s) = s {
         let Some(name) = &s.service_name else { return Some("server without SERVICE_NAME".into()) };
-        if !s.named_is_service_name {
-            return Some("NamedService::NAME is not SERVICE_NAME".into());
+        // NamedService::NAME, whichever way it is written, must evaluate to SERVICE_NAME's string
+        if s.named_value.as_ref() != Some(name) {
+            return Some(format!("NamedService::NAME is {:?}, SERVICE_NAME is {:?}", s.named_value, name));
         }
         if s.default_arms != 1 || !s.default_unimplemented || s.non_literal_arms != 0 {
             return Some(format!("server match: {} default arms (UNIMPLEMENTED: {}), {} non-literal arms", s.default_arms, s.default_unimplemented, s.non_literal_arms));
@@ -196,12 +313,25 @@ fn cross_check(c: Option<&ClientMod>, s: Option<&ServerMod>, unique_routes: bool
         if s.trait_fns.len() != s.arms.len() {
             return Some(format!("{} trait methods but {} match arms", s.trait_fns.len(), s.arms.len()));
         }
+        if s.traits.len() != 1 {
+            return Some(format!("{} traits in the server module", s.traits.len()));
+        }
         for (i, a) in s.arms.iter().enumerate() {
-            if a.kinds.len() != 1 || a.grpc_calls.len() != 1 || a.fn_names.len() != 1 {
-                return Some(format!("arm {:?}: {} service impls, {} grpc calls, {} handler calls", a.literal, a.kinds.len(), a.grpc_calls.len(), a.fn_names.len()));
+            if a.kinds.len() != 1 || a.grpc_calls.len() != 1 || a.fn_names.len() != 1 || a.traits.len() != 1 || a.inner_by_value.len() != 1 || a.call_req_streaming.len() != 1 {
+                return Some(format!(
+                    "arm {:?}: {} service impls, {} grpc calls, {} handler calls ({} trait paths, {} recognisable receivers), {} `fn call`",
+                    a.literal, a.kinds.len(), a.grpc_calls.len(), a.fn_names.len(), a.traits.len(), a.inner_by_value.len(), a.call_req_streaming.len()
+                ));
             }
             if a.kinds[0] != a.grpc_calls[0] {
                 return Some(format!("arm {:?}: implements {} service but calls grpc.{}", a.literal, a.kinds[0], a.grpc_calls[0]));
+            }
+            let (kcs, kss) = (a.kinds[0] == "client_streaming" || a.kinds[0] == "streaming", a.kinds[0] == "server_streaming" || a.kinds[0] == "streaming");
+            if a.call_req_streaming[0] != kcs {
+                return Some(format!("arm {:?}: {} service whose `call` takes a {} request", a.literal, a.kinds[0], if a.call_req_streaming[0] { "streaming" } else { "single" }));
+            }
+            if a.response_stream.is_some() != kss {
+                return Some(format!("arm {:?}: {} service {} a ResponseStream type", a.literal, a.kinds[0], if kss { "without" } else { "with" }));
             }
             if !a.literal.starts_with(&format!("/{}/", name)) {
                 return Some(format!("arm {:?} does not start with /{}/ (SERVICE_NAME)", a.literal, name));
@@ -209,6 +339,22 @@ fn cross_check(c: Option<&ClientMod>, s: Option<&ServerMod>, unique_routes: bool
             let t = &s.trait_fns[i];
             if t.name != a.fn_names[0] || t.shape != a.grpc_calls[0] || t.req != a.req || (!t.resp.is_empty() && t.resp != a.resp) {
                 return Some(format!("arm {:?} ({} {} -> {}) does not fit trait method {:?}", a.literal, a.grpc_calls[0], a.req, a.resp, t));
+            }
+            if a.traits[0] != s.traits[0] {
+                return Some(format!("arm {:?} calls <T as {}>::{} but the module's trait is {}", a.literal, a.traits[0], a.fn_names[0], s.traits[0]));
+            }
+            if t.arc_self != Some(a.inner_by_value[0]) {
+                return Some(format!("arm {:?} passes {} but trait method {} takes {:?} (Some(true) = Arc<Self>)", a.literal, if a.inner_by_value[0] { "inner" } else { "&inner" }, t.name, t.arc_self));
+            }
+            // the handler's response type is the arm's Response / ResponseStream
+            let fits = match (&t.resp_ty, &a.response_stream) {
+                (Resp::Plain(r), None) => r == &a.resp,
+                (Resp::Assoc(x), Some(Resp::Assoc(y))) => x == y && t.assoc.as_ref() == Some(&(x.clone(), a.resp.clone())),
+                (Resp::Boxed(r), Some(Resp::Boxed(r2))) => r == r2 && r == &a.resp,
+                _ => false,
+            };
+            if !fits {
+                return Some(format!("arm {:?}: Response {} / ResponseStream {:?} does not fit the handler's return type {:?} (declared stream type {:?})", a.literal, a.resp, a.response_stream, t.resp_ty, t.assoc));
             }
             if unique_routes && s.arms[..i].iter().any(|b| b.literal == a.literal) {
                 return Some(format!("arm {:?} is shadowed by an earlier identical arm", a.literal));
@@ -239,21 +385,73 @@ fn cross_check(c: Option<&ClientMod>, s: Option<&ServerMod>, unique_routes: bool
     }
     None
 }
+/// the property, read off the generated code against the service definition: every call goes to
+/// /package.Service/Method with the definition's streaming shape, the advertised name is the prefix
+fn spec_check(sp: &Spec, emit_package: bool, c: Option<&ClientMod>, s: Option<&ServerMod>) -> Option<String> {
+    let want_name = if emit_package && !sp.package.is_empty() { format!("{}.{}", sp.package, sp.ident) } else { sp.ident.clone() };
+    if let Some(c) = c {
+        if c.fns.len() != sp.methods.len() {
+            return Some(format!("{} client methods, the definition has {}", c.fns.len(), sp.methods.len()));
+        }
+        for (f, (route, mcs, mss)) in c.fns.iter().zip(&sp.methods) {
+            let want = format!("/{}/{}", want_name, route);
+            if f.paths.first() != Some(&want) {
+                return Some(format!("client {} sends {:?}, the definition says {:?}", f.fn_name, f.paths, want));
+            }
+            let shape = shape_of(*mcs, *mss);
+            if f.calls.first().map(|x| x.as_str()) != Some(shape) || f.sig_shape != shape {
+                return Some(format!("client {} is {:?} / signature {}, the definition says {}", f.fn_name, f.calls, f.sig_shape, shape));
+            }
+            if f.grpc_methods.first() != Some(&(want_name.clone(), route.clone())) {
+                return Some(format!("client {}: GrpcMethod {:?}, the definition says ({:?}, {:?})", f.fn_name, f.grpc_methods, want_name, route));
+            }
+        }
+    }
+    if let Some(s) = s {
+        if s.service_name.as_ref() != Some(&want_name) || s.named_value.as_ref() != Some(&want_name) {
+            return Some(format!("SERVICE_NAME {:?} / NamedService::NAME {:?}, the definition says {:?}", s.service_name, s.named_value, want_name));
+        }
+        if s.arms.len() != sp.methods.len() || s.trait_fns.len() != sp.methods.len() {
+            return Some(format!("{} arms and {} trait methods, the definition has {} methods", s.arms.len(), s.trait_fns.len(), sp.methods.len()));
+        }
+        for (i, (route, mcs, mss)) in sp.methods.iter().enumerate() {
+            let a = &s.arms[i];
+            let t = &s.trait_fns[i];
+            let want = format!("/{}/{}", want_name, route);
+            let shape = shape_of(*mcs, *mss);
+            if a.literal != want {
+                return Some(format!("arm {:?}, the definition says {:?}", a.literal, want));
+            }
+            if a.kinds.first().map(|x| x.as_str()) != Some(shape) || a.grpc_calls.first().map(|x| x.as_str()) != Some(shape) || t.shape != shape {
+                return Some(format!("arm {:?}: {:?} service, grpc.{:?}, handler signature {}; the definition says {}", a.literal, a.kinds, a.grpc_calls, t.shape, shape));
+            }
+        }
+    }
+    None
+}
 
 // ------------------------------------------------------------------ generators of descriptors
 const PACKAGES: &[&str] = &["", "pkg", "a.b.c", "my_pkg.v1", "grpc.health.v1", "x", "pkg.Svc", "P", "a1.b2", "foo_bar", "google.rpc", "r#type"];
-const SVC_NAMES: &[&str] = &["Svc", "SvcX", "svc", "my_service", "Svc2", "S", "HTTPServer", "Health", "A_B", "a1", "ServerReflection", "Type"];
+const SVC_NAMES: &[&str] = &["Svc", "SvcX", "svc", "my_service", "Svc2", "S", "HTTPServer", "Health", "A_B", "a1", "ServerReflection", "Type", "XMLHttpAPI", "r#type", "_Svc"];
 const FN_NAMES: &[&str] = &[
     "get", "get_x", "r#type", "r#match", "r#async", "r#fn", "r#move", "list", "get2", "get_2", "g", "GET", "server_reflection_info", "check",
-    "self_", "super_", "r#struct", "r#await", "r#dyn", "r#try", "say_hello", "watch",
+    "self_", "super_", "r#struct", "r#await", "r#dyn", "r#try", "say_hello", "watch", "_x", "r#gen",
 ];
 const ROUTES: &[&str] = &[
     "Get", "GetX", "Ge", "get", "GET", "type", "match", "async", "fn", "Move", "List", "Get2", "get_2", "g", "ServerReflectionInfo", "Check",
-    "self", "Self", "Super", "struct", "await", "dyn", "try", "SayHello", "Watch", "get_x", "Get_X", "G3t",
+    "self", "Self", "Super", "struct", "await", "dyn", "try", "SayHello", "Watch", "get_x", "Get_X", "G3t", "_", "crate", "r#type",
 ];
-const TYPES: &[&str] = &["crate::In", "crate::Out", "super::Out", "Msg", "crate::a::B", "::prost::alloc::string::String", "Vec<u8>", "super::super::In", "crate::r#type::In"];
+// type strings as a user writes them (white space is not significant)
+const TYPES: &[&str] = &[
+    "crate::In", "crate::Out", "super::Out", "Msg", "crate::a::B", "::prost::alloc::string::String", "Vec<u8>", "super::super::In", "crate::r#type::In",
+    "crate :: In", "Vec < u8 >", " super::Out ", "std::collections::HashMap<String, Vec<u8>>",
+];
+// ---- the malformed stream: names that are not identifiers, bare keywords, types that are not paths
+const BAD_NAMES: &[&str] = &["", "1abc", "123", "get-x", "a b", "get.x", "r#", "r#self", "r#_", "r#crate", "r#Self", "r#super", "r#1", "a/b#"];
+const KEYWORD_NAMES: &[&str] = &["type", "self", "Self", "_", "match", "fn", "async", "try", "crate", "super", "yield", "dyn", "union", "auto", "default", "gen", "raw"];
+const BAD_TYPES: &[&str] = &["", "()", "Vec<", "a b", "&str", "[u8]", "crate::", "fn()"];
 
-fn gen_sdesc(r: &mut Rng) -> SDesc {
+fn gen_sdesc(r: &mut Rng, malformed: bool) -> SDesc {
     let n = match r.below(10) {
         0 => 0,
         1..=3 => 1,
@@ -262,16 +460,31 @@ fn gen_sdesc(r: &mut Rng) -> SDesc {
     };
     let mut methods: Vec<MDesc> = vec![];
     for _ in 0..n {
-        let name = r.pick(FN_NAMES).to_string();
-        let route = r.pick(ROUTES).to_string();
+        let mut name = r.pick(FN_NAMES).to_string();
+        let mut route = r.pick(ROUTES).to_string();
+        let mut input = r.pick(TYPES).to_string();
+        let mut output = r.pick(TYPES).to_string();
+        let mut codec = "crate::Codec".to_string();
+        if malformed && r.chance(1, 3) {
+            match r.below(6) {
+                0 => name = r.pick(BAD_NAMES).to_string(),
+                1 => name = r.pick(KEYWORD_NAMES).to_string(),
+                2 => route = r.pick(BAD_NAMES).to_string(),
+                3 => input = r.pick(BAD_TYPES).to_string(),
+                4 => output = r.pick(BAD_TYPES).to_string(),
+                _ => codec = r.pick(BAD_TYPES).to_string(),
+            }
+        }
         if methods.iter().any(|m| m.name == name || m.route == route) {
             continue;
         }
-        let norm = |t: &str| toks(&syn::parse_str::<syn::Path>(t).unwrap());
-        methods.push(MDesc { name, route, cs: r.chance(1, 2), ss: r.chance(1, 2), input: norm(*r.pick(TYPES)), output: norm(*r.pick(TYPES)) });
+        methods.push(MDesc { name, route, cs: r.chance(1, 2), ss: r.chance(1, 2), input, output, codec });
     }
-    let name = r.pick(SVC_NAMES).to_string();
-    SDesc { ident: name.clone(), name, package: r.pick(PACKAGES).to_string(), methods }
+    let mut name = r.pick(SVC_NAMES).to_string();
+    if malformed && r.chance(1, 3) {
+        name = if r.chance(1, 2) { r.pick(BAD_NAMES).to_string() } else { r.pick(KEYWORD_NAMES).to_string() };
+    }
+    SDesc { name, package: r.pick(PACKAGES).to_string(), methods }
 }
 fn gen_opts(r: &mut Rng, both_bias: bool) -> Opts {
     let (bc, bs) = match r.below(if both_bias { 8 } else { 3 }) {
@@ -279,7 +492,207 @@ fn gen_opts(r: &mut Rng, both_bias: bool) -> Opts {
         1 => (false, true),
         _ => (true, true),
     };
-    Opts { emit_package: r.chance(2, 3), use_arc_self: r.chance(1, 3), default_stubs: r.chance(1, 3), build_client: bc, build_server: bs, build_transport: r.chance(1, 2) }
+    Opts {
+        emit_package: r.chance(2, 3),
+        use_arc_self: r.chance(1, 3),
+        default_stubs: r.chance(1, 3),
+        build_client: bc,
+        build_server: bs,
+        build_transport: r.chance(1, 2),
+        cwkt: false,
+        proto_path: "super".into(),
+    }
+}
+
+// ------------------------------------------------------------------ .proto level descriptors (prost kinds)
+#[derive(Clone, Copy, Debug, PartialEq)]
+enum TyRef {
+    In,        // message In of the same file
+    Out,       // message Out of the same file
+    Nested,    // message Outer.Inner of the same file
+    Empty,     // google.protobuf.Empty
+    Timestamp, // google.protobuf.Timestamp
+    Dep,       // message dep.v1.Msg of an imported file
+    Ext,       // message dep.v1.Ext, mapped by extern_path
+}
+const TYREFS: &[TyRef] = &[TyRef::In, TyRef::Out, TyRef::In, TyRef::Out, TyRef::Nested, TyRef::Empty, TyRef::Timestamp, TyRef::Dep, TyRef::Ext];
+impl TyRef {
+    fn proto(&self) -> &'static str {
+        match self {
+            TyRef::In => "In",
+            TyRef::Out => "Out",
+            TyRef::Nested => "Outer.Inner",
+            TyRef::Empty => "google.protobuf.Empty",
+            TyRef::Timestamp => "google.protobuf.Timestamp",
+            TyRef::Dep => "dep.v1.Msg",
+            TyRef::Ext => "dep.v1.Ext",
+        }
+    }
+}
+#[derive(Clone, Debug)]
+struct PMeth {
+    route: String,
+    cs: bool,
+    ss: bool,
+    input: TyRef,
+    output: TyRef,
+}
+#[derive(Clone, Debug)]
+struct PSvc {
+    ident: String,
+    methods: Vec<PMeth>,
+}
+#[derive(Clone, Debug)]
+struct PFile {
+    package: String,
+    services: Vec<PSvc>,
+    /// extern_path(".dep.v1.Ext", <this>)
+    ext_rust: String,
+}
+impl PFile {
+    fn text(&self) -> String {
+        let mut s = String::from("syntax = \"proto3\";\n");
+        if !self.package.is_empty() {
+            s += &format!("package {};\n", self.package);
+        }
+        s += "import \"google/protobuf/empty.proto\";\nimport \"google/protobuf/timestamp.proto\";\nimport \"dep.proto\";\n";
+        s += "message In {}\nmessage Out {}\nmessage Outer { message Inner {} }\n";
+        for sv in &self.services {
+            s += &format!("// service {}\nservice {} {{\n", sv.ident, sv.ident);
+            for m in &sv.methods {
+                s += &format!(
+                    "  rpc {} ({}{}) returns ({}{});\n",
+                    m.route,
+                    if m.cs { "stream " } else { "" },
+                    m.input.proto(),
+                    if m.ss { "stream " } else { "" },
+                    m.output.proto()
+                );
+            }
+            s += "}\n";
+        }
+        s
+    }
+    fn json(&self) -> Value {
+        json!({"package": self.package, "extern_path": [".dep.v1.Ext", self.ext_rust], "proto": self.text()})
+    }
+    fn spec(&self, i: usize) -> Spec {
+        let sv = &self.services[i];
+        Spec { package: self.package.clone(), ident: sv.ident.clone(), methods: sv.methods.iter().map(|m| (m.route.clone(), m.cs, m.ss)).collect() }
+    }
+    /// writes t.proto and dep.proto into `dir`
+    fn write(&self, dir: &Path) -> PathBuf {
+        std::fs::write(dir.join("dep.proto"), "syntax = \"proto3\";\npackage dep.v1;\nmessage Msg {}\nmessage Ext {}\n").unwrap();
+        let p = dir.join("t.proto");
+        std::fs::write(&p, self.text()).unwrap();
+        p
+    }
+}
+const PROTO_SVC_NAMES: &[&str] = &["Svc", "SvcX", "svc", "my_service", "Svc2", "S", "HTTPServer", "Health", "A_B", "a1", "ServerReflection", "Type", "XMLHttpAPI", "_Svc", "Self", "self", "echo_service", "Svc_"];
+const PROTO_ROUTES: &[&str] = &[
+    "Get", "GetX", "Ge", "get", "GET", "type", "match", "async", "fn", "Move", "List", "Get2", "get_2", "g", "ServerReflectionInfo", "Check", "self", "Self", "Super", "struct",
+    "await", "dyn", "try", "SayHello", "Watch", "get_x", "Get_X", "G3t", "crate", "HTTPGet", "getHTTP2Stream", "_get",
+];
+fn gen_pfile(r: &mut Rng) -> PFile {
+    let package = loop {
+        let p = *r.pick(PACKAGES);
+        if !p.contains('#') {
+            break p.to_string();
+        }
+    };
+    let n = r.range(1, 3) as usize;
+    let mut services: Vec<PSvc> = vec![];
+    for _ in 0..n {
+        let ident = r.pick(PROTO_SVC_NAMES).to_string();
+        let k = match r.below(10) {
+            0 => 0,
+            1..=3 => 1,
+            4..=7 => r.range(2, 4),
+            _ => r.range(5, 8),
+        };
+        let mut methods: Vec<PMeth> = vec![];
+        for _ in 0..k {
+            let route = r.pick(PROTO_ROUTES).to_string();
+            // proto requires distinct method names; prost's snake-casing may still merge two of them
+            // into one Rust fn name (get_x / Get_X / GetX) - such code does not compile, but both
+            // sides are generated and must agree
+            if methods.iter().any(|m| m.route == route) {
+                continue;
+            }
+            methods.push(PMeth { route, cs: r.chance(1, 2), ss: r.chance(1, 2), input: *r.pick(TYREFS), output: *r.pick(TYREFS) });
+        }
+        if services.iter().all(|x| x.ident != ident) && !["In", "Out", "Outer"].contains(&ident.as_str()) {
+            services.push(PSvc { ident, methods });
+        }
+    }
+    PFile { package, services, ext_rust: r.pick(&["::ext_crate::Ext", "crate::ext::Ext", "::ext::v1::Ext"]).to_string() }
+}
+fn gen_popts(r: &mut Rng) -> Opts {
+    let mut o = gen_opts(r, true);
+    o.cwkt = r.chance(1, 4);
+    o.proto_path = r.pick(&["super", "super", "crate::pb", "super::super", "crate"]).to_string();
+    o
+}
+
+/// prost_build::Service values exactly as prost-build hands them to a ServiceGenerator (captured
+/// with a generator of our own - tonic-build is not involved)
+struct Capture(std::sync::Arc<std::sync::Mutex<Vec<prost_build::Service>>>);
+impl prost_build::ServiceGenerator for Capture {
+    fn generate(&mut self, service: prost_build::Service, _buf: &mut String) {
+        self.0.lock().unwrap().push(service);
+    }
+}
+fn capture_services(fds: prost_types::FileDescriptorSet, dir: &Path, cwkt: bool, extern_paths: &[(String, String)]) -> Result<Vec<prost_build::Service>, String> {
+    let got = std::sync::Arc::new(std::sync::Mutex::new(vec![]));
+    let mut cfg = prost_build::Config::new();
+    cfg.out_dir(dir).service_generator(Box::new(Capture(got.clone())));
+    if cwkt {
+        cfg.compile_well_known_types();
+    }
+    for (p, rp) in extern_paths {
+        cfg.extern_path(p, rp);
+    }
+    cfg.compile_fds(fds).map_err(|e| e.to_string())?;
+    let v = got.lock().unwrap().clone();
+    Ok(v)
+}
+fn prost_service_coq(s: &prost_build::Service) -> String {
+    format!(
+        "(mkPS {} {} {} {})",
+        cs(&s.name),
+        cs(&s.proto_name),
+        cs(&s.package),
+        coq_list(&s.methods, |m| format!(
+            "(mkPM {} {} {} {} {} {} {} {})",
+            cs(&m.name),
+            cs(&m.proto_name),
+            cs(&m.input_type),
+            cs(&m.output_type),
+            cs(&m.input_proto_type),
+            cs(&m.output_proto_type),
+            coq_bool(m.client_streaming),
+            coq_bool(m.server_streaming)
+        ))
+    )
+}
+fn prost_service_json(s: &prost_build::Service) -> Value {
+    json!({"name": s.name, "proto_name": s.proto_name, "package": s.package,
+           "methods": s.methods.iter().map(|m| json!({"name": m.name, "proto_name": m.proto_name, "input_type": m.input_type, "output_type": m.output_type,
+               "input_proto_type": m.input_proto_type, "output_proto_type": m.output_proto_type, "client_streaming": m.client_streaming, "server_streaming": m.server_streaming})).collect::<Vec<_>>()})
+}
+/// all generated client / server modules of the .rs files of a directory (sorted by file name)
+fn extract_dir(dir: &Path) -> Result<(Vec<ClientMod>, Vec<ServerMod>, usize), String> {
+    let mut files: Vec<PathBuf> = std::fs::read_dir(dir).map_err(|e| e.to_string())?.map(|e| e.unwrap().path()).filter(|p| p.extension().map(|e| e == "rs").unwrap_or(false)).collect();
+    files.sort();
+    let mut cs = vec![];
+    let mut ss = vec![];
+    for f in &files {
+        let file = syn::parse_file(&std::fs::read_to_string(f).map_err(|e| e.to_string())?).map_err(|e| format!("{}: {}", f.display(), e))?;
+        let (c, s) = extract(&file);
+        cs.extend(c);
+        ss.extend(s);
+    }
+    Ok((cs, ss, files.len()))
 }
 
 struct Ctx {
@@ -289,6 +702,15 @@ struct Ctx {
     /// "committed sources = generator output", one entry per file (goes to summary.extra)
     regen: Vec<Value>,
     committed: Vec<Value>,
+    protoc: bool,
+}
+/// how compile_protos is reached
+#[derive(Clone, Copy, Debug, PartialEq)]
+enum Via {
+    Fds,         // configure()..compile_fds(fds)
+    Protos,      // configure()..compile_protos(&[t.proto], &[dir])            (runs protoc)
+    ProtosNoRun, // configure().skip_protoc_run().file_descriptor_set_path(f)..compile_protos(..)
+    Simple,      // tonic_build::compile_protos(t.proto)  (OUT_DIR, all defaults)      (runs protoc)
 }
 impl Ctx {
     fn dir(&mut self, what: &str) -> PathBuf {
@@ -297,19 +719,30 @@ impl Ctx {
         std::fs::create_dir_all(&d).unwrap();
         d
     }
-    fn hist_desc(&mut self, k: &str, s: &SDesc, o: &Opts) {
-        self.out.hist(&format!("{}.package", k), if s.package.is_empty() { "absent" } else if s.package.contains('.') { "nested" } else { "single" });
-        self.out.hist(&format!("{}.methods", k), s.methods.len());
-        for m in &s.methods {
-            self.out.hist(&format!("{}.streaming", k), shape_of(m.cs, m.ss));
-            if m.name.starts_with("r#") || m.name.ends_with('_') {
-                self.out.hist(&format!("{}.keyword_method", k), "yes");
-            }
+    fn hist_shape(&mut self, k: &str, package: &str, methods: &[(bool, bool)], o: &Opts) {
+        self.out.hist(&format!("{}.package", k), if package.is_empty() { "absent" } else if package.contains('.') { "nested" } else { "single" });
+        self.out.hist(&format!("{}.methods", k), methods.len());
+        for (mcs, mss) in methods {
+            self.out.hist(&format!("{}.streaming", k), shape_of(*mcs, *mss));
         }
         self.out.hist(&format!("{}.emit_package", k), o.emit_package);
         self.out.hist(&format!("{}.use_arc_self", k), o.use_arc_self);
         self.out.hist(&format!("{}.default_stubs", k), o.default_stubs);
         self.out.hist(&format!("{}.sides", k), match (o.build_client, o.build_server) { (true, true) => "client+server", (true, false) => "client only", _ => "server only" });
+    }
+    fn hist_desc(&mut self, k: &str, s: &SDesc, o: &Opts) {
+        let ms: Vec<(bool, bool)> = s.methods.iter().map(|m| (m.cs, m.ss)).collect();
+        self.hist_shape(k, &s.package, &ms, o);
+        for m in &s.methods {
+            if m.name.starts_with("r#") {
+                self.out.hist(&format!("{}.method_name", k), "raw identifier (keyword)");
+            } else if !usable_ident(&m.name) {
+                self.out.hist(&format!("{}.method_name", k), "not usable (keyword / not an identifier)");
+            } else {
+                self.out.hist(&format!("{}.method_name", k), "plain");
+            }
+        }
+        self.out.hist(&format!("{}.descriptor", k), if s.well_formed() { "well-formed" } else { "malformed (names / types)" });
     }
 
     /// kind gen.tokens: CodeGenBuilder straight to token streams
@@ -327,7 +760,8 @@ impl Ctx {
             }
             syn::parse2::<syn::File>(ts).map_err(|e| e.to_string())
         }));
-        self.finish_gen(kind, s, o, res, true);
+        let model = format!("obs_codegen {} {} {} {}", o.cgb(), coq_bool(o.build_client), coq_bool(o.build_server), s.coq());
+        self.finish_gen(kind, s, o, res, model);
     }
     /// kind gen.manual: manual::Builder::compile (always emit_package, no arc self / stubs)
     fn gen_manual_file(&mut self, kind: &str, s: &SDesc, o: &Opts) {
@@ -339,118 +773,149 @@ impl Ctx {
             syn::parse_file(&std::fs::read_to_string(&f).map_err(|e| e.to_string())?).map_err(|e| e.to_string())
         }));
         let _ = std::fs::remove_dir_all(&dir);
-        self.finish_gen(kind, s, o, res, true);
+        let model = format!("obs_manual {} {}", o.mb(), s.coq());
+        self.finish_gen(kind, s, o, res, model);
     }
-    fn finish_gen(&mut self, kind: &str, s: &SDesc, o: &Opts, res: Result<Result<syn::File, String>, String>, full: bool) {
-        let model = format!("obs_gen {} {} {}", coq_bool(full), o.coq(), s.coq());
+    fn finish_gen(&mut self, kind: &str, s: &SDesc, o: &Opts, res: Result<Result<syn::File, String>, String>, model: String) {
+        let wf = s.well_formed();
         let (obs, orc) = match res {
-            Err(p) => (Tr::L(vec![Tr::n(99u8)]), Some(format!("generator panicked: {}", p))),
-            Ok(Err(e)) => (Tr::L(vec![Tr::n(98u8)]), Some(format!("generated code does not parse: {}", e))),
+            // outside the class of well-formed descriptors the outcome is judged by the tie only
+            Err(p) => (Tr::L(vec![Tr::n(99u8)]), if wf { Some(format!("generator panicked on a well-formed descriptor: {}", p)) } else { None }),
+            Ok(Err(e)) => (Tr::L(vec![Tr::n(98u8)]), if wf { Some(format!("generated code does not parse: {}", e)) } else { None }),
             Ok(Ok(file)) => {
                 let (cs, ss) = extract(&file);
                 let mut orc = None;
                 if cs.len() != o.build_client as usize || ss.len() != o.build_server as usize {
                     orc = Some(format!("{} client and {} server modules generated, options asked for {}/{}", cs.len(), ss.len(), o.build_client as u8, o.build_server as u8));
                 }
-                let orc = orc.or_else(|| cross_check(cs.first(), ss.first(), true));
-                (gen_tr(cs.first(), ss.first(), full), orc)
+                let orc = orc.or_else(|| cross_check(cs.first(), ss.first(), true)).or_else(|| spec_check(&s.spec(), o.emit_package, cs.first(), ss.first()));
+                // message types are the descriptor's, in every place (white space aside)
+                let orc = orc.or_else(|| {
+                    let strip = |t: &str| t.chars().filter(|c| !c.is_whitespace()).collect::<String>();
+                    for (i, m) in s.methods.iter().enumerate() {
+                        let (wi, wo) = (strip(&m.input), strip(&m.output));
+                        if let Some(f) = cs.first().and_then(|c| c.fns.get(i)) {
+                            if f.req != wi || f.resp != wo {
+                                return Some(format!("client {}: types {} -> {}, the descriptor says {} -> {}", f.fn_name, f.req, f.resp, wi, wo));
+                            }
+                        }
+                        if let Some(a) = ss.first().and_then(|s| s.arms.get(i)) {
+                            if a.req != wi || a.resp != wo {
+                                return Some(format!("arm {:?}: types {} -> {}, the descriptor says {} -> {}", a.literal, a.req, a.resp, wi, wo));
+                            }
+                        }
+                    }
+                    None
+                });
+                (gen_tr(cs.first(), ss.first()), orc)
             }
         };
         let k = kind.trim_start_matches("corpus.").to_string();
         self.hist_desc(&k, s, o);
-        self.out.push(Case {
-            kind: kind.to_string(),
-            input: json!({"service": s.json(), "options": o.json()}),
-            model,
-            impl_obs: obs,
-            oracle: orc,
-            nontrivial: !s.methods.is_empty(),
-        });
+        self.out.push(Case { kind: kind.to_string(), input: json!({"service": s.json(), "options": o.json()}), model, impl_obs: obs, oracle: orc, nontrivial: !s.methods.is_empty() });
     }
 
-    /// kind gen.prost: descriptor set -> prost-build + tonic-build -> file
-    fn gen_prost(&mut self, kind: &str, package: &str, services: &[SDesc], o: &Opts) {
-        use prost_types::*;
+    /// kinds gen.prost / gen.protos.*: .proto text -> (protox | protoc) -> prost-build driving
+    /// tonic-build's ServiceGenerator -> files -> syn -> extraction
+    fn gen_prost(&mut self, kind: &str, pf: &PFile, o: &Opts, via: Via) {
+        let src = self.dir("proto");
         let dir = self.dir("prost");
-        let fq = |t: &str| if package.is_empty() { format!(".{}", t) } else { format!(".{}.{}", package, t) };
-        let msg = |n: &str| DescriptorProto { name: Some(n.into()), ..Default::default() };
-        let fd = FileDescriptorProto {
-            name: Some("t.proto".into()),
-            package: if package.is_empty() { None } else { Some(package.into()) },
-            syntax: Some("proto3".into()),
-            message_type: vec![msg("In"), msg("Out")],
-            service: services
-                .iter()
-                .map(|s| ServiceDescriptorProto {
-                    name: Some(s.ident.clone()),
-                    method: s
-                        .methods
-                        .iter()
-                        .map(|m| MethodDescriptorProto {
-                            name: Some(m.route.clone()),
-                            input_type: Some(fq("In")),
-                            output_type: Some(fq("Out")),
-                            client_streaming: Some(m.cs),
-                            server_streaming: Some(m.ss),
-                            options: None,
-                        })
-                        .collect(),
-                    options: None,
-                })
-                .collect(),
-            ..Default::default()
-        };
-        let fds = FileDescriptorSet { file: vec![fd] };
-        let res = catch(std::panic::AssertUnwindSafe(|| {
-            let mut b = tonic_build::configure()
-                .build_client(o.build_client)
-                .build_server(o.build_server)
-                .build_transport(o.build_transport)
-                .use_arc_self(o.use_arc_self)
-                .generate_default_stubs(o.default_stubs)
-                .emit_rerun_if_changed(false)
-                .out_dir(&dir);
-            if !o.emit_package {
-                b = b.disable_package_emission();
-            }
-            b.compile_fds(fds).map_err(|e| e.to_string())?;
-            let mut files: Vec<PathBuf> = std::fs::read_dir(&dir).unwrap().map(|e| e.unwrap().path()).collect();
-            files.sort();
-            if files.len() != 1 {
-                return Err(format!("{} files written", files.len()));
-            }
-            syn::parse_file(&std::fs::read_to_string(&files[0]).map_err(|e| e.to_string())?).map_err(|e| e.to_string())
-        }));
-        let _ = std::fs::remove_dir_all(&dir);
-        let extracted = match &res {
-            Ok(Ok(f)) => Some(extract(f)),
-            _ => None,
-        };
-        for (i, s) in services.iter().enumerate() {
-            let model = format!("obs_gen false {} {}", o.coq(), s.coq());
-            let (obs, orc) = match (&res, &extracted) {
-                (Err(p), _) => (Tr::L(vec![Tr::n(99u8)]), Some(format!("generator panicked: {}", p))),
-                (Ok(Err(e)), _) => (Tr::L(vec![Tr::n(98u8)]), Some(format!("generation failed: {}", e))),
-                (_, Some((cs, ss))) => {
-                    let mut orc = None;
-                    if cs.len() != if o.build_client { services.len() } else { 0 } || ss.len() != if o.build_server { services.len() } else { 0 } {
-                        orc = Some(format!("{} client and {} server modules for {} services", cs.len(), ss.len(), services.len()));
-                    }
-                    let unique = (0..s.methods.len()).all(|a| (0..a).all(|b| s.methods[a].route != s.methods[b].route));
-                    let orc = orc.or_else(|| cross_check(cs.get(i), ss.get(i), unique));
-                    (gen_tr(cs.get(i), ss.get(i), false), orc)
+        let cap = self.dir("capture");
+        let proto = pf.write(&src);
+        let ext = vec![(".dep.v1.Ext".to_string(), pf.ext_rust.clone())];
+        // descriptors: protox (pure Rust), as /repo/codegen does
+        let fds = protox::compile([&proto], [&src]).map_err(|e| e.to_string());
+        // the model's input: what prost-build hands to a ServiceGenerator
+        // (Simple: tonic_build::compile_protos has no extern_path / options)
+        let simple = via == Via::Simple;
+        let captured = fds.clone().and_then(|f| capture_services(f, &cap, o.cwkt && !simple, if simple { &[] } else { &ext }));
+        let o = if simple { Opts::plain(true, true) } else { o.clone() };
+        let res = catch(std::panic::AssertUnwindSafe(|| -> Result<(Vec<ClientMod>, Vec<ServerMod>, usize), String> {
+            if simple {
+                std::env::set_var("OUT_DIR", &dir);
+                let r = tonic_build::compile_protos(&proto).map_err(|e| e.to_string());
+                std::env::remove_var("OUT_DIR");
+                r?;
+            } else {
+                let mut b = tonic_build::configure()
+                    .build_client(o.build_client)
+                    .build_server(o.build_server)
+                    .build_transport(o.build_transport)
+                    .use_arc_self(o.use_arc_self)
+                    .generate_default_stubs(o.default_stubs)
+                    .compile_well_known_types(o.cwkt)
+                    .proto_path(&o.proto_path)
+                    .extern_path(&ext[0].0, &ext[0].1)
+                    .emit_rerun_if_changed(false)
+                    .out_dir(&dir);
+                if !o.emit_package {
+                    b = b.disable_package_emission();
                 }
-                _ => unreachable!(),
+                match via {
+                    Via::Fds => b.compile_fds(fds.clone()?).map_err(|e| e.to_string())?,
+                    Via::Protos => b.compile_protos(&[&proto], &[&src]).map_err(|e| e.to_string())?,
+                    Via::ProtosNoRun => {
+                        use protox::prost::Message;
+                        let f = src.join("fds.bin");
+                        std::fs::write(&f, fds.clone()?.encode_to_vec()).map_err(|e| e.to_string())?;
+                        b.skip_protoc_run().file_descriptor_set_path(&f).compile_protos(&[&proto], &[&src]).map_err(|e| e.to_string())?
+                    }
+                    Via::Simple => unreachable!(),
+                }
+            }
+            extract_dir(&dir)
+        }));
+        for d in [&src, &dir, &cap] {
+            let _ = std::fs::remove_dir_all(d);
+        }
+        let n = pf.services.len();
+        for i in 0..n {
+            let sv = &pf.services[i];
+            let (model, cap_json) = match &captured {
+                Ok(v) if v.len() == n => (format!("obs_prost {} {}", o.pb(), prost_service_coq(&v[i])), prost_service_json(&v[i])),
+                Ok(v) => (format!("Nd [Nn 95; Nn {}]", v.len()), json!(null)),
+                Err(e) => ("Nd [Nn 95]".to_string(), json!(e)),
             };
-            self.hist_desc("gen.prost", s, o);
-            self.out.hist("gen.prost.services_in_file", services.len());
+            let (obs, orc) = match &res {
+                Err(p) => (Tr::L(vec![Tr::n(99u8)]), Some(format!("generator panicked on a valid .proto: {}", p))),
+                Ok(Err(e)) => (Tr::L(vec![Tr::n(98u8)]), Some(format!("generation failed on a valid .proto: {}", e))),
+                Ok(Ok((cs, ss, _files))) => {
+                    let mut orc = None;
+                    if cs.len() != if o.build_client { n } else { 0 } || ss.len() != if o.build_server { n } else { 0 } {
+                        orc = Some(format!("{} client and {} server modules for {} services", cs.len(), ss.len(), n));
+                    }
+                    if captured.as_ref().map(|v| v.len()).ok() != Some(n) {
+                        orc = orc.or(Some(format!("prost-build did not hand over {} services: {:?}", n, captured.as_ref().map(|v| v.len()))));
+                    }
+                    let orc = orc.or_else(|| cross_check(cs.get(i), ss.get(i), true)).or_else(|| spec_check(&pf.spec(i), o.emit_package, cs.get(i), ss.get(i)));
+                    (gen_tr(cs.get(i), ss.get(i)), orc)
+                }
+            };
+            let k = kind.trim_start_matches("corpus.").to_string();
+            let ms: Vec<(bool, bool)> = sv.methods.iter().map(|m| (m.cs, m.ss)).collect();
+            self.hist_shape(&k, &pf.package, &ms, &o);
+            self.out.hist(&format!("{}.services_in_file", k), n);
+            self.out.hist(&format!("{}.compile_well_known_types", k), o.cwkt);
+            self.out.hist(&format!("{}.proto_path", k), &o.proto_path);
+            for m in &sv.methods {
+                self.out.hist(&format!("{}.message_types", k), format!("{:?}", m.input));
+                self.out.hist(&format!("{}.message_types", k), format!("{:?}", m.output));
+            }
+            if let Ok(v) = &captured {
+                if let Some(c) = v.get(i) {
+                    self.out.hist(&format!("{}.service_name_recased_by_prost", k), c.name != c.proto_name);
+                    for m in &c.methods {
+                        self.out.hist(&format!("{}.method_name_mangled", k), if m.name.starts_with("r#") { "raw identifier" } else if m.name.ends_with('_') && !m.proto_name.ends_with('_') { "underscore suffix" } else { "snake case" });
+                    }
+                }
+            }
             self.out.push(Case {
                 kind: kind.to_string(),
-                input: json!({"package": package, "service": s.json(), "services_in_file": services.len(), "index": i, "options": o.json()}),
+                input: json!({"file": pf.json(), "service": sv.ident, "index": i, "options": o.json(), "via": format!("{:?}", via), "prost_service": cap_json}),
                 model,
                 impl_obs: obs,
                 oracle: orc,
-                nontrivial: !s.methods.is_empty(),
+                nontrivial: !sv.methods.is_empty(),
             });
         }
     }
@@ -509,7 +974,7 @@ fn proto_tokens(src: &str) -> Vec<String> {
     out
 }
 /// (package, services) of one .proto file; services only at top level (brace depth 0)
-fn read_proto(path: &Path) -> (String, Vec<SDesc>) {
+fn read_proto(path: &Path) -> (String, Vec<Spec>) {
     let t = proto_tokens(&std::fs::read_to_string(path).unwrap());
     let mut package = String::new();
     let mut services = vec![];
@@ -540,23 +1005,21 @@ fn read_proto(path: &Path) -> (String, Vec<SDesc>) {
                             if cs {
                                 k += 1;
                             }
-                            let input = t[k].clone();
-                            k += 2; // ")" "returns"
+                            k += 2; // <input> ")" "returns"
                             assert_eq!(t[k], "returns");
                             k += 2;
                             let ss = t[k] == "stream";
                             if ss {
                                 k += 1;
                             }
-                            let output = t[k].clone();
-                            methods.push(MDesc { name: String::new(), route, cs, ss, input, output });
+                            methods.push((route, cs, ss));
                             j = k;
                         }
                         _ => {}
                     }
                     j += 1;
                 }
-                services.push(SDesc { name: name.clone(), package: String::new(), ident: name, methods });
+                services.push(Spec { package: String::new(), ident: name, methods });
                 i = j - 1;
             }
             _ => {}
@@ -742,22 +1205,37 @@ fn committed_and_regen(ctx: &mut Ctx) {
             });
         }
         // ---- committed.*: extraction from the committed sources vs. the .proto services
-        // expected: per package (= per generated file) the services of the interface files
-        let mut per_pkg: Vec<(String, Vec<SDesc>, bool, bool)> = vec![];
+        // expected: per package (= per generated file) the services of the interface files;
+        // `specs` by our own reading of the .proto text (for the direct check), `prost` as
+        // prost-build hands them to a ServiceGenerator (the model's input)
+        let mut per_pkg: Vec<(String, Vec<Spec>, Vec<prost_build::Service>, Option<String>, bool, bool)> = vec![];
         for c in &calls {
+            let files: Vec<PathBuf> = c.iface_files.iter().map(|f| repo_crate.join(f)).collect();
+            let incs: Vec<PathBuf> = c.include_dirs.iter().map(|d| repo_crate.join(d)).collect();
+            let cap = ctx.dir("capture");
+            let captured = protox::compile(&files, &incs).map_err(|e| e.to_string()).and_then(|fds| capture_services(fds, &cap, false, &[]));
+            let _ = std::fs::remove_dir_all(&cap);
             for f in &c.iface_files {
                 let (pkg, svcs) = read_proto(&repo_crate.join(f));
+                let (mine, err) = match &captured {
+                    Ok(v) => (v.iter().filter(|s| s.package == pkg && svcs.iter().any(|x| x.ident == s.proto_name)).cloned().collect::<Vec<_>>(), None),
+                    Err(e) => (vec![], Some(e.clone())),
+                };
                 match per_pkg.iter_mut().find(|p| p.0 == pkg) {
-                    Some(p) => p.1.extend(svcs),
-                    None => per_pkg.push((pkg, svcs, c.build_client, c.build_server)),
+                    Some(p) => {
+                        p.1.extend(svcs);
+                        p.2.extend(mine);
+                        p.3 = p.3.take().or(err);
+                    }
+                    None => per_pkg.push((pkg, svcs, mine, err, c.build_client, c.build_server)),
                 }
             }
         }
-        for (pkg, svcs, bc, bs) in per_pkg {
+        for (pkg, svcs, prost, cap_err, bc, bs) in per_pkg {
             let fname = format!("{}.rs", pkg.replace('.', "_"));
             let path = repo_crate.join(&out_rel).join(&fname);
-            let o = Opts { emit_package: true, use_arc_self: false, default_stubs: false, build_client: bc, build_server: bs, build_transport: true };
-            let model = format!("Nd {}", coq_list(&svcs, |s| format!("obs_gen false {} {}", o.coq(), s.coq())));
+            let o = Opts::plain(bc, bs);
+            let model = format!("Nd {}", coq_list(&prost, |s| format!("obs_prost {} {}", o.pb(), prost_service_coq(s))));
             let parsed = std::fs::read_to_string(&path).map_err(|e| e.to_string()).and_then(|s| syn::parse_file(&s).map_err(|e| e.to_string()));
             let (obs, orc) = match parsed {
                 Err(e) => (Tr::L(vec![Tr::n(98u8)]), Some(format!("{}: {}", path.display(), e))),
@@ -765,44 +1243,35 @@ fn committed_and_regen(ctx: &mut Ctx) {
                     let (cs, ss) = extract(&file);
                     let want_c = if bc { svcs.len() } else { 0 };
                     let want_s = if bs { svcs.len() } else { 0 };
-                    let mut orc = None;
+                    let mut orc = cap_err.map(|e| format!("cannot compile the .proto files of {}: {}", fname, e));
                     if cs.len() != want_c || ss.len() != want_s {
-                        orc = Some(format!("{}: {} client / {} server modules, the .proto files define {} services (client: {}, server: {})", fname, cs.len(), ss.len(), svcs.len(), bc, bs));
+                        orc = orc.or(Some(format!("{}: {} client / {} server modules, the .proto files define {} services (client: {}, server: {})", fname, cs.len(), ss.len(), svcs.len(), bc, bs)));
                     }
-                    for i in 0..svcs.len() {
-                        orc = orc.or_else(|| cross_check(cs.get(i), ss.get(i), true));
+                    if prost.len() != svcs.len() {
+                        orc = orc.or(Some(format!("{}: prost-build hands over {} services, the .proto text has {}", fname, prost.len(), svcs.len())));
                     }
-                    // the committed code against the .proto, directly
                     for (i, s) in svcs.iter().enumerate() {
-                        let full = format!("{}.{}", pkg, s.ident);
-                        if let Some(sv) = ss.get(i) {
-                            if sv.service_name.as_deref() != Some(&full) && orc.is_none() {
-                                orc = Some(format!("{}: SERVICE_NAME {:?}, the .proto says {}", fname, sv.service_name, full));
-                            }
-                            for (a, m) in sv.arms.iter().zip(&s.methods) {
-                                if (a.literal != format!("/{}/{}", full, m.route) || a.grpc_calls.first().map(|x| x.as_str()) != Some(shape_of(m.cs, m.ss))) && orc.is_none() {
-                                    orc = Some(format!("{}: arm {:?} {:?}, the .proto says rpc {} ({})", fname, a.literal, a.grpc_calls, m.route, shape_of(m.cs, m.ss)));
-                                }
-                            }
-                            if sv.arms.len() != s.methods.len() && orc.is_none() {
-                                orc = Some(format!("{}: {} arms, the .proto has {} rpcs", fname, sv.arms.len(), s.methods.len()));
-                            }
-                        }
+                        let mut s = s.clone();
+                        s.package = pkg.clone();
+                        // client against server, and the committed code against the .proto, directly
+                        orc = orc.or_else(|| cross_check(if bc { cs.get(i) } else { None }, if bs { ss.get(i) } else { None }, true)).or_else(|| spec_check(&s, true, cs.get(i), ss.get(i)));
                     }
-                    (Tr::L((0..svcs.len().max(cs.len()).max(ss.len())).map(|i| gen_tr(cs.get(i), ss.get(i), false)).collect()), orc)
+                    (Tr::L((0..svcs.len().max(cs.len()).max(ss.len())).map(|i| gen_tr(cs.get(i), ss.get(i))).collect()), orc)
                 }
             };
+            let rpcs = svcs.iter().map(|s| s.methods.len()).sum::<usize>();
             ctx.out.hist("committed.services_in_file", svcs.len());
             ctx.out.hist(&format!("committed.file.{}/{}/{}", cr, out_rel, fname), if orc.is_none() { "extraction agrees with the .proto services" } else { "DISAGREES with the .proto services" });
             ctx.committed.push(json!({"crate": cr, "file": format!("{}/{}", out_rel, fname), "package": pkg, "services": svcs.iter().map(|s| s.ident.clone()).collect::<Vec<_>>(),
-                "rpcs": svcs.iter().map(|s| s.methods.len()).sum::<usize>(), "agrees": orc.is_none(), "detail": orc}));
+                "rpcs": rpcs, "agrees": orc.is_none(), "detail": orc}));
             ctx.out.push(Case {
                 kind: format!("committed.{}", fname),
-                input: json!({"file": path.display().to_string(), "package": pkg, "services": svcs.iter().map(|s| s.json()).collect::<Vec<_>>(), "build_client": bc, "build_server": bs}),
+                input: json!({"file": path.display().to_string(), "package": pkg, "services": prost.iter().map(prost_service_json).collect::<Vec<_>>(), "build_client": bc, "build_server": bs}),
                 model,
                 impl_obs: obs,
                 oracle: orc,
-                nontrivial: true,
+                // a file without services (google_rpc.rs: messages only) says nothing about clients and servers
+                nontrivial: rpcs > 0,
             });
         }
     }
@@ -816,7 +1285,7 @@ mod e2e {
     use tonic::service::Routes;
 
     const N: usize = 200_000;
-    fn add(routes: Routes, k: usize, rec: &Rec) -> Routes {
+    pub fn add(routes: Routes, k: usize, rec: &Rec) -> Routes {
         match k {
             0 => routes.add_service(pkg_svc::svc_server::SvcServer::new(rec.clone())),
             1 => routes.add_service(pkg_svcx::svc_x_server::SvcXServer::new(rec.clone())),
@@ -855,12 +1324,11 @@ mod e2e {
     }
     const FN_NAMES: [&[&str]; 4] = [&["get", "list", "put", "chat"], &["get", "get_x", "ge"], &["get", "get_lower", "get_upper"], &["get", "r#type"]];
     const PKG: [(&str, &str); 4] = [("pkg", "Svc"), ("pkg", "SvcX"), ("", "Svc"), ("pkg.Svc", "Inner")];
-    fn sdesc(k: usize) -> SDesc {
+    pub fn sdesc(k: usize) -> SDesc {
         let (pkg, name) = PKG[k];
         SDesc {
             name: name.into(),
             package: pkg.into(),
-            ident: name.into(),
             methods: FIXTURE[k]
                 .1
                 .iter()
@@ -872,12 +1340,13 @@ mod e2e {
                     ss: *shape == "server_streaming" || *shape == "streaming",
                     input: "crate::Msg".into(),
                     output: "crate::Msg".into(),
+                    codec: "crate::RawCodec".into(),
                 })
                 .collect(),
         }
     }
     pub fn run(ctx: &mut Ctx, r: &mut Rng, rounds: usize) {
-        let o = Opts { emit_package: true, use_arc_self: false, default_stubs: false, build_client: true, build_server: true, build_transport: false };
+        let o = Opts { build_transport: false, ..Opts::plain(true, true) };
         for round in 0..rounds {
             for k in 0..4usize {
                 for j in 0..FIXTURE[k].1.len() {
@@ -927,19 +1396,7 @@ mod e2e {
                     };
                     let regs_d: Vec<SDesc> = regs.iter().map(|g| sdesc(*g)).collect();
                     let s = sdesc(k);
-                    let m = &s.methods[j];
-                    let model = format!(
-                        "obs_e2e {} {} {} (mkMethod {} {} {} {} {} {})",
-                        o.coq(),
-                        coq_list(&regs_d, |d| d.coq()),
-                        s.coq(),
-                        cs(&m.name),
-                        cs(&m.route),
-                        coq_bool(m.cs),
-                        coq_bool(m.ss),
-                        cs(&m.input),
-                        cs(&m.output)
-                    );
+                    let model = format!("obs_e2e {} {} {}", coq_list(&regs_d, |d| d.coq()), s.coq(), j);
                     ctx.out.hist("e2e.registered", regs.len());
                     ctx.out.hist("e2e.shape", want_shape);
                     ctx.out.push(Case {
@@ -957,8 +1414,231 @@ mod e2e {
         for k in 0..4 {
             let s = sdesc(k);
             let parsed = syn::parse_file(GENERATED[k].1).map_err(|e| e.to_string());
-            ctx.finish_gen("gen.fixture", &s, &o, Ok(parsed), true);
+            let model = format!("obs_manual {} {}", o.mb(), s.coq());
+            ctx.finish_gen("gen.fixture", &s, &o, Ok(parsed), model);
         }
+    }
+}
+
+// ------------------------------------------------------------------ e2e through the prost path, with options
+/// fixture generated by build.rs: fixture/demo.proto through configure()..compile_fds,
+/// once with default options, once with disable_package_emission + use_arc_self + default stubs
+#[allow(non_camel_case_types, dead_code, clippy::all)]
+mod fx_default {
+    include!(concat!(env!("OUT_DIR"), "/fx_default/demo.v1.rs"));
+}
+#[allow(non_camel_case_types, dead_code, clippy::all)]
+mod fx_opts {
+    include!(concat!(env!("OUT_DIR"), "/fx_opts/demo.v1.rs"));
+}
+mod e2e_prost {
+    use super::*;
+    use std::sync::Arc;
+    use tonic::codegen::BoxStream;
+    use tonic::service::Routes;
+    use tonic::{Request, Response, Status, Streaming};
+
+    const PROTO: &str = include_str!("../fixture/demo.proto");
+    const GENERATED: [&str; 2] = [include_str!(concat!(env!("OUT_DIR"), "/fx_default/demo.v1.rs")), include_str!(concat!(env!("OUT_DIR"), "/fx_opts/demo.v1.rs"))];
+    const N: usize = 200_000;
+
+    #[derive(Clone, Default)]
+    pub struct Rec2 {
+        pub hits: h_router::Hits,
+    }
+    impl Rec2 {
+        fn hit(&self, s: &str, m: &str, shape: &'static str) {
+            self.hits.lock().unwrap().push((s.to_string(), m.to_string(), shape));
+        }
+    }
+    type S1 = tokio_stream::Iter<std::vec::IntoIter<Result<fx_default::Msg, Status>>>;
+    #[tonic::async_trait]
+    impl fx_default::http_echo_service_server::HttpEchoService for Rec2 {
+        async fn say(&self, _r: Request<fx_default::Msg>) -> Result<Response<fx_default::Msg>, Status> {
+            self.hit("demo.v1.HTTPEcho_service", "Say", "unary");
+            Ok(Response::new(fx_default::Msg { data: vec![1] }))
+        }
+        type SayManyStream = S1;
+        async fn say_many(&self, _r: Request<fx_default::Msg>) -> Result<Response<S1>, Status> {
+            self.hit("demo.v1.HTTPEcho_service", "SayMany", "server_streaming");
+            Ok(Response::new(tokio_stream::iter(vec![Ok(fx_default::Msg { data: vec![1] })])))
+        }
+        async fn collect(&self, _r: Request<Streaming<fx_default::Msg>>) -> Result<Response<fx_default::Msg>, Status> {
+            self.hit("demo.v1.HTTPEcho_service", "Collect", "client_streaming");
+            Ok(Response::new(fx_default::Msg { data: vec![1] }))
+        }
+        type typeStream = S1;
+        async fn r#type(&self, _r: Request<Streaming<fx_default::Msg>>) -> Result<Response<S1>, Status> {
+            self.hit("demo.v1.HTTPEcho_service", "type", "streaming");
+            Ok(Response::new(tokio_stream::iter(vec![Ok(fx_default::Msg { data: vec![1] })])))
+        }
+    }
+    /// Arc<Self> receivers; SayMany and Collect are NOT overridden: the generated default bodies answer
+    #[tonic::async_trait]
+    impl fx_opts::http_echo_service_server::HttpEchoService for Rec2 {
+        async fn say(self: Arc<Self>, _r: Request<fx_opts::Msg>) -> Result<Response<fx_opts::Msg>, Status> {
+            self.hit("HTTPEcho_service", "Say", "unary");
+            Ok(Response::new(fx_opts::Msg { data: vec![1] }))
+        }
+        async fn r#type(self: Arc<Self>, _r: Request<Streaming<fx_opts::Msg>>) -> Result<Response<BoxStream<fx_opts::Msg>>, Status> {
+            self.hit("HTTPEcho_service", "type", "streaming");
+            Ok(Response::new(Box::pin(tokio_stream::iter(vec![Ok(fx_opts::Msg { data: vec![1] })]))))
+        }
+    }
+    const OVERRIDDEN: [[bool; 4]; 2] = [[true, true, true, true], [true, false, false, true]];
+    const ROUTE: [(&str, &str); 4] = [("Say", "unary"), ("SayMany", "server_streaming"), ("Collect", "client_streaming"), ("type", "streaming")];
+    const NAME: [&str; 2] = ["demo.v1.HTTPEcho_service", "HTTPEcho_service"];
+
+    type R = Result<Result<(), Status>, ()>;
+    fn done<T>(r: Result<Result<Response<T>, Status>, ()>) -> R {
+        r.map(|x| x.map(|_| ()))
+    }
+    fn call(routes: Routes, v: usize, j: usize) -> (R, &'static str) {
+        use fx_default::http_echo_service_client::HttpEchoServiceClient as C0;
+        use fx_opts::http_echo_service_client::HttpEchoServiceClient as C1;
+        let m0 = || fx_default::Msg { data: vec![7] };
+        let m1 = || fx_opts::Msg { data: vec![7] };
+        match (v, j) {
+            (0, 0) => (done(spin(C0::new(routes).say(m0()), N)), "unary"),
+            (0, 1) => (done(spin(C0::new(routes).say_many(m0()), N)), "server_streaming"),
+            (0, 2) => (done(spin(C0::new(routes).collect(tokio_stream::iter(vec![m0(), m0()])), N)), "client_streaming"),
+            (0, 3) => (done(spin(C0::new(routes).r#type(tokio_stream::iter(vec![m0(), m0()])), N)), "streaming"),
+            (1, 0) => (done(spin(C1::new(routes).say(m1()), N)), "unary"),
+            (1, 1) => (done(spin(C1::new(routes).say_many(m1()), N)), "server_streaming"),
+            (1, 2) => (done(spin(C1::new(routes).collect(tokio_stream::iter(vec![m1(), m1()])), N)), "client_streaming"),
+            (1, 3) => (done(spin(C1::new(routes).r#type(tokio_stream::iter(vec![m1(), m1()])), N)), "streaming"),
+            _ => panic!("no such fixture method"),
+        }
+    }
+    fn opts(v: usize) -> Opts {
+        if v == 0 {
+            Opts { build_transport: false, ..Opts::plain(true, true) }
+        } else {
+            Opts { emit_package: false, use_arc_self: true, default_stubs: true, build_transport: false, ..Opts::plain(true, true) }
+        }
+    }
+    pub fn run(ctx: &mut Ctx, r: &mut Rng, rounds: usize) {
+        // the model's input: the prost_build::Service of the fixture .proto
+        let src = ctx.dir("fxproto");
+        let cap = ctx.dir("fxcap");
+        std::fs::write(src.join("demo.proto"), PROTO).unwrap();
+        let svc = protox::compile([src.join("demo.proto")], [&src]).map_err(|e| e.to_string()).and_then(|f| capture_services(f, &cap, false, &[]));
+        let _ = std::fs::remove_dir_all(&src);
+        let _ = std::fs::remove_dir_all(&cap);
+        let svc = match svc {
+            Ok(v) if v.len() == 1 => v[0].clone(),
+            other => {
+                ctx.out.push(Case { kind: "e2e.prost".into(), input: json!({"proto": PROTO}), model: "Nd [Nn 95]".into(), impl_obs: Tr::L(vec![Tr::n(0u8)]), oracle: Some(format!("cannot read the fixture .proto: {:?}", other.map(|v| v.len()))), nontrivial: true });
+                return;
+            }
+        };
+        let reg_coq = |g: &Reg| match g {
+            Reg::Fx(v) => format!("(RegProst {} {})", opts(*v).pb(), prost_service_coq(&svc)),
+            Reg::Router(k) => format!("(RegManual {})", e2e::sdesc(*k).coq()),
+        };
+        for round in 0..rounds {
+            for v in 0..2usize {
+                for j in 0..4usize {
+                    // the target, the other variant and a random subset of the h_router fixture servers, in random order
+                    let mut regs = vec![Reg::Fx(v)];
+                    if round == 0 || r.chance(1, 2) {
+                        regs.push(Reg::Fx(1 - v));
+                    }
+                    for k in 0..4 {
+                        if round > 0 && r.chance(1, 3) {
+                            regs.push(Reg::Router(k));
+                        }
+                    }
+                    for i in (1..regs.len()).rev() {
+                        let x = r.below(i as u64 + 1) as usize;
+                        regs.swap(i, x);
+                    }
+                    let rec = Rec2::default();
+                    let rrec = h_router::Rec::default();
+                    let mut routes = Routes::default();
+                    for g in &regs {
+                        routes = match g {
+                            Reg::Fx(0) => routes.add_service(fx_default::http_echo_service_server::HttpEchoServiceServer::new(rec.clone())),
+                            Reg::Fx(_) => routes.add_service(fx_opts::http_echo_service_server::HttpEchoServiceServer::new(rec.clone())),
+                            Reg::Router(k) => e2e::add(routes, *k, &rrec),
+                        };
+                    }
+                    let res = catch(std::panic::AssertUnwindSafe(|| call(routes, v, j)));
+                    let mut hits = rec.hits.lock().unwrap().clone();
+                    hits.extend(rrec.hits.lock().unwrap().clone());
+                    let (want_route, want_shape) = ROUTE[j];
+                    let overridden = OVERRIDDEN[v][j];
+                    let (obs, orc) = match res {
+                        Err(p) => (Tr::L(vec![Tr::n(99u8)]), Some(format!("panic: {}", p))),
+                        Ok((Err(()), _)) => (Tr::L(vec![Tr::n(97u8)]), Some("client call did not complete".into())),
+                        Ok((Ok(status), client_shape)) => {
+                            let code = match &status {
+                                Err(s) => s.code() as i32 as u32,
+                                Ok(()) => 0,
+                            };
+                            let stub_answer = matches!(&status, Err(s) if s.code() == tonic::Code::Unimplemented && s.message() == "Not yet implemented");
+                            let who = if hits.len() == 1 {
+                                Tr::L(vec![Tr::n(0u8), Tr::s(&hits[0].0), Tr::s(&hits[0].1)])
+                            } else if hits.is_empty() && stub_answer {
+                                Tr::L(vec![Tr::n(3u8)])
+                            } else {
+                                Tr::L(vec![Tr::n(98u8), Tr::n(hits.len() as u64)])
+                            };
+                            let server_shape = hits.first().map(|h| h.2).unwrap_or("none");
+                            let orc = if overridden {
+                                if hits != vec![(NAME[v].to_string(), want_route.to_string(), want_shape)] {
+                                    Some(format!("generated client of {} method {} reached handlers {:?}, expected {}/{} ({})", NAME[v], want_route, hits, NAME[v], want_route, want_shape))
+                                } else if client_shape != server_shape {
+                                    Some(format!("client side is {}, server side is {}", client_shape, server_shape))
+                                } else if let Err(s) = &status {
+                                    Some(format!("call failed: {:?} {}", s.code(), s.message()))
+                                } else {
+                                    None
+                                }
+                            } else if !hits.is_empty() || !stub_answer {
+                                // the trait method is not overridden: the generated default body must answer, which
+                                // means the client's path reached this method's arm
+                                Some(format!("method {} is not overridden: expected the generated default body (UNIMPLEMENTED \"Not yet implemented\"), got handlers {:?}, status {:?}", want_route, hits, status))
+                            } else {
+                                None
+                            };
+                            (Tr::L(vec![who, Tr::n(shape_code(client_shape)), Tr::n(shape_code(server_shape)), Tr::n(code)]), orc)
+                        }
+                    };
+                    let model = format!("obs_e2e_prost {} {} {} {} {}", coq_list(&regs, reg_coq), opts(v).pb(), prost_service_coq(&svc), j, coq_bool(overridden));
+                    ctx.out.hist("e2e.prost.registered", regs.len());
+                    ctx.out.hist("e2e.prost.variant", if v == 0 { "default options" } else { "no package emission + Arc<Self> + default stubs" });
+                    ctx.out.hist("e2e.prost.answered_by", if overridden { "the implementation's handler" } else { "the generated default body" });
+                    ctx.out.push(Case {
+                        kind: "e2e.prost".into(),
+                        input: json!({"variant": v, "service": NAME[v], "method": want_route, "overridden": overridden, "registered": regs.iter().map(|g| format!("{:?}", g)).collect::<Vec<_>>(), "options": opts(v).json()}),
+                        model,
+                        impl_obs: obs,
+                        oracle: orc,
+                        nontrivial: true,
+                    });
+                }
+            }
+        }
+        // the fixture sources are what the model says the generator emits for this .proto
+        for v in 0..2 {
+            let o = opts(v);
+            let parsed = syn::parse_file(GENERATED[v]).map_err(|e| e.to_string());
+            let (obs, orc) = match parsed {
+                Err(e) => (Tr::L(vec![Tr::n(98u8)]), Some(e)),
+                Ok(f) => {
+                    let (cs, ss) = extract(&f);
+                    let sp = Spec { package: "demo.v1".into(), ident: "HTTPEcho_service".into(), methods: vec![("Say".into(), false, false), ("SayMany".into(), false, true), ("Collect".into(), true, false), ("type".into(), true, true)] };
+                    (gen_tr(cs.first(), ss.first()), cross_check(cs.first(), ss.first(), true).or_else(|| spec_check(&sp, o.emit_package, cs.first(), ss.first())))
+                }
+            };
+            ctx.out.push(Case { kind: "gen.fixture.prost".into(), input: json!({"variant": v, "options": o.json(), "prost_service": prost_service_json(&svc)}), model: format!("obs_prost {} {}", o.pb(), prost_service_coq(&svc)), impl_obs: obs, oracle: orc, nontrivial: true });
+        }
+    }
+    #[derive(Clone, Copy, Debug)]
+    pub enum Reg {
+        Fx(usize),
+        Router(usize),
     }
 }
 
@@ -967,68 +1647,122 @@ fn main() {
     let scratch = PathBuf::from(format!("/tmp/codegen/{}", std::process::id()));
     let _ = std::fs::remove_dir_all(&scratch);
     std::fs::create_dir_all(&scratch).unwrap();
-    let mut ctx = Ctx { out: Out::new(&a.out), scratch: scratch.clone(), n: 0, regen: vec![], committed: vec![] };
+    // compile_protos needs protoc (prost-build: $PROTOC or `protoc` on PATH); without it the two
+    // kinds that run it are skipped and the skip is recorded
+    let protoc = std::process::Command::new(std::env::var_os("PROTOC").unwrap_or("protoc".into())).arg("--version").output().map(|o| o.status.success()).unwrap_or(false);
+    let mut ctx = Ctx { out: Out::new(&a.out), scratch: scratch.clone(), n: 0, regen: vec![], committed: vec![], protoc };
     let mut r = Rng::new(a.seed);
+    ctx.out.hist("protoc", if protoc { "available: gen.protos.protoc / gen.protos.simple run" } else { "NOT available: gen.protos.protoc / gen.protos.simple skipped" });
 
     // ---- corpus: committed sources, regeneration, hand-picked descriptors ----
     committed_and_regen(&mut ctx);
-    let t = |n: &str, rt: &str, c: bool, s: bool| MDesc { name: n.into(), route: rt.into(), cs: c, ss: s, input: "crate::In".into(), output: "crate::Out".into() };
+    let t = |n: &str, rt: &str, c: bool, s: bool| MDesc { name: n.into(), route: rt.into(), cs: c, ss: s, input: "crate::In".into(), output: "crate :: Out".into(), codec: "crate::Codec".into() };
     let four = vec![t("get", "Get", false, false), t("list", "List", false, true), t("put", "Put", true, false), t("r#type", "type", true, true)];
+    let pt = |rt: &str, c: bool, s: bool, i: TyRef, o: TyRef| PMeth { route: rt.into(), cs: c, ss: s, input: i, output: o };
+    let pfour = vec![
+        pt("Get", false, false, TyRef::In, TyRef::Out),
+        pt("List", false, true, TyRef::Empty, TyRef::Nested),
+        pt("Put", true, false, TyRef::Dep, TyRef::Timestamp),
+        pt("type", true, true, TyRef::Ext, TyRef::Out),
+    ];
     for pkg in ["", "pkg", "a.b.c"] {
         for (bc, bs) in [(true, true), (true, false), (false, true)] {
             for emit in [true, false] {
                 for (arc, stubs) in [(false, false), (true, false), (false, true), (true, true)] {
-                    let s = SDesc { name: "Svc".into(), package: pkg.into(), ident: "Svc".into(), methods: four.clone() };
-                    let o = Opts { emit_package: emit, use_arc_self: arc, default_stubs: stubs, build_client: bc, build_server: bs, build_transport: true };
+                    let s = SDesc { name: "Svc".into(), package: pkg.into(), methods: four.clone() };
+                    let o = Opts { emit_package: emit, use_arc_self: arc, default_stubs: stubs, ..Opts::plain(bc, bs) };
                     ctx.gen_tokens("corpus.gen.tokens", &s, &o);
                     if emit && !arc && !stubs {
                         ctx.gen_manual_file("corpus.gen.manual", &s, &o);
                     }
-                    ctx.gen_prost("corpus.gen.prost", pkg, &[s], &o);
+                    // names that prost-build re-cases: the wire path keeps the .proto spelling
+                    let pf = PFile { package: pkg.into(), services: vec![PSvc { ident: "HTTPEcho_service".into(), methods: pfour.clone() }], ext_rust: "::ext_crate::Ext".into() };
+                    let po = Opts { cwkt: arc && stubs && bs, proto_path: if arc { "crate::pb".into() } else { "super".into() }, ..o.clone() };
+                    ctx.gen_prost("corpus.gen.prost", &pf, &po, Via::Fds);
                 }
             }
         }
     }
-    e2e::run(&mut ctx, &mut r, if a.thorough { 40 } else { 8 });
+    // every reserved word and every non-identifier, as service name and as method name, on either side
+    for (bc, bs) in [(true, false), (false, true)] {
+        for bad in RUST_KEYWORDS.iter().chain(BAD_NAMES).chain(KEYWORD_NAMES) {
+            let o = Opts::plain(bc, bs);
+            let mut s = SDesc { name: "Svc".into(), package: "pkg".into(), methods: four.clone() };
+            s.methods[1].name = bad.to_string();
+            ctx.gen_tokens("corpus.names.tokens", &s, &o);
+            let mut s = SDesc { name: bad.to_string(), package: "pkg".into(), methods: four.clone() };
+            ctx.gen_tokens("corpus.names.tokens", &s, &o);
+            s.methods.truncate(1);
+            if !bad.contains('/') {
+                ctx.gen_manual_file("corpus.names.manual", &s, &o);
+            }
+            let mut s = SDesc { name: "Svc".into(), package: "pkg".into(), methods: four.clone() };
+            s.methods[3].route = bad.to_string();
+            ctx.gen_tokens("corpus.names.tokens", &s, &Opts { default_stubs: bc, ..o.clone() });
+        }
+        for bad in BAD_TYPES {
+            for which in 0..3 {
+                let mut s = SDesc { name: "Svc".into(), package: "pkg".into(), methods: four.clone() };
+                match which {
+                    0 => s.methods[2].input = bad.to_string(),
+                    1 => s.methods[2].output = bad.to_string(),
+                    _ => s.methods[2].codec = bad.to_string(),
+                }
+                ctx.gen_tokens("corpus.names.tokens", &s, &Opts::plain(bc, bs));
+            }
+        }
+    }
+    // compile_protos, the three ways it is reached
+    for pkg in ["", "pkg", "a.b.c"] {
+        let pf = PFile { package: pkg.into(), services: vec![PSvc { ident: "Svc".into(), methods: pfour.clone() }, PSvc { ident: "echo_service".into(), methods: pfour[..2].to_vec() }], ext_rust: "crate::ext::Ext".into() };
+        for (emit, arc, stubs) in [(true, false, false), (false, true, true)] {
+            let o = Opts { emit_package: emit, use_arc_self: arc, default_stubs: stubs, ..Opts::plain(true, true) };
+            ctx.gen_prost("corpus.gen.protos.fds_file", &pf, &o, Via::ProtosNoRun);
+            if protoc {
+                ctx.gen_prost("corpus.gen.protos.protoc", &pf, &o, Via::Protos);
+            }
+        }
+        if protoc {
+            ctx.gen_prost("corpus.gen.protos.simple", &pf, &Opts::plain(true, true), Via::Simple);
+        }
+    }
+    e2e::run(&mut ctx, &mut r, if a.thorough { 40 } else { 6 });
+    e2e_prost::run(&mut ctx, &mut r, if a.thorough { 40 } else { 8 });
 
     // ---- generated ----
-    let (n_tok, n_man, n_prost) = if a.thorough { (16000, 1500, 1500) } else { (1200, 150, 150) };
-    for _ in 0..n_tok {
-        let s = gen_sdesc(&mut r);
+    let (n_tok, n_bad, n_man, n_prost, n_protos) = if a.thorough { (6000, 1500, 800, 900, 240) } else { (600, 200, 100, 120, 30) };
+    for i in 0..n_tok + n_bad {
+        let malformed = i >= n_tok;
+        let s = gen_sdesc(&mut r, malformed);
         let o = gen_opts(&mut r, true);
-        ctx.gen_tokens("gen.tokens", &s, &o);
+        ctx.gen_tokens(if malformed { "gen.tokens.malformed" } else { "gen.tokens" }, &s, &o);
     }
-    for _ in 0..n_man {
-        let s = gen_sdesc(&mut r);
+    for i in 0..n_man {
+        let malformed = i % 5 == 4;
+        let mut s = gen_sdesc(&mut r, malformed);
+        if s.name.contains('/') || s.package.contains('/') {
+            s.name = "Svc".into(); // compile() writes "<package>.<name>.rs"
+        }
         let mut o = gen_opts(&mut r, false);
         o.emit_package = true;
         o.use_arc_self = false;
         o.default_stubs = false;
-        ctx.gen_manual_file("gen.manual", &s, &o);
+        ctx.gen_manual_file(if malformed { "gen.manual.malformed" } else { "gen.manual" }, &s, &o);
     }
     for _ in 0..n_prost {
-        let pkg = loop {
-            let p = *r.pick(PACKAGES);
-            if !p.contains('#') {
-                break p;
-            }
-        };
-        let n = r.range(1, 3) as usize;
-        let mut svcs: Vec<SDesc> = vec![];
-        for _ in 0..n {
-            let mut s = gen_sdesc(&mut r);
-            s.package = pkg.to_string();
-            for m in &mut s.methods {
-                m.name = String::new();
-                m.input = String::new();
-                m.output = String::new();
-            }
-            if svcs.iter().all(|x| x.ident != s.ident) {
-                svcs.push(s);
-            }
+        let pf = gen_pfile(&mut r);
+        let o = gen_popts(&mut r);
+        ctx.gen_prost("gen.prost", &pf, &o, Via::Fds);
+    }
+    for i in 0..n_protos {
+        let pf = gen_pfile(&mut r);
+        let o = gen_popts(&mut r);
+        match i % 3 {
+            0 => ctx.gen_prost("gen.protos.fds_file", &pf, &o, Via::ProtosNoRun),
+            1 if protoc => ctx.gen_prost("gen.protos.protoc", &pf, &o, Via::Protos),
+            2 if protoc => ctx.gen_prost("gen.protos.simple", &pf, &o, Via::Simple),
+            _ => {}
         }
-        let o = gen_opts(&mut r, true);
-        ctx.gen_prost("gen.prost", pkg, &svcs, &o);
     }
 
     let _ = std::fs::remove_dir_all(&scratch);
@@ -1037,8 +1771,9 @@ fn main() {
     let _ = std::fs::remove_dir("/tmp/codegen"); // only if no other run is using it
     ctx.out.finish(
         IMPORTS,
-        "gen.tokens / gen.manual: random tonic_build::manual descriptors (package absent / single / nested, CamelCase / snake / digit identifiers, Rust keywords as method names, 0..9 methods over the four streaming kinds) x options (emit_package, use_arc_self, generate_default_stubs, client only / server only / both) through the real generators; gen.prost: the same descriptors as prost FileDescriptorSets (1..3 services per file) through tonic_build::configure()..compile_fds; committed.*: the committed generated sources against their .proto files; regen.*: byte comparison with a fresh run of /repo/codegen's own codegen(); e2e: generated clients called through Routes carrying generated servers. Non-trivial = at least one method. Distinct = distinct (kind, model expression).",
+        "gen.tokens / gen.manual: random tonic_build::manual descriptors (package absent / single / nested, CamelCase / snake / digit / acronym identifiers, Rust keywords as raw method names, 0..9 methods over the four streaming kinds, type strings with insignificant white space) x options (emit_package, use_arc_self, generate_default_stubs, client only / server only / both) through CodeGenBuilder / manual::Builder::compile; *.malformed and corpus.names.*: the same with names that are not identifiers, bare reserved words, types and codec paths that are not paths (outcome: generated / panic / unparsable; the oracle judges only well-formed descriptors, the tie judges all); gen.prost: random .proto files (1..3 services, names that prost-build re-cases or mangles, message types: same file, nested, google.protobuf.Empty / Timestamp, imported package, extern_path) compiled by protox and fed to tonic_build::configure()..compile_fds with emit_package / arc self / default stubs / compile_well_known_types / proto_path / sides varied; gen.protos.*: the same through compile_protos (protoc), compile_protos with skip_protoc_run + file_descriptor_set_path, and tonic_build::compile_protos; committed.*: the committed generated sources against their .proto files; regen.*: byte comparison with a fresh run of /repo/codegen's own codegen(); e2e: generated clients called through Routes carrying generated servers. Non-trivial = at least one method. Distinct = distinct (kind, model expression).",
         json!({"committed_sources_equal_generator_output": regen, "committed_sources_vs_proto": committed,
-               "bootstrap_generator": "/repo/codegen/src/main.rs `codegen` (included verbatim), argument table parsed from its `main`"}),
+               "bootstrap_generator": "/repo/codegen/src/main.rs `codegen` (included verbatim), argument table parsed from its `main`",
+               "protoc_available": protoc}),
     );
 }
